@@ -465,7 +465,9 @@ func cmdLitsStr(args []string) {
 		}
 	}
 	rec("", 3)
-	adversarial := []string{"\"; panic(\"x\") //", "`+\"`\"+`", "*/", "/*", "\n}\n", "\\", "\\\"", "a\x00b", string([]byte{0xff, 0xfe, 0xfd}), "  ", "'", "\r\n", strings.Repeat("\"", 50)}
+	adversarial := []string{"\"; panic(\"x\") //", "`+\"`\"+`", "*/", "/*", "\n}\n", "\\", "\\\"", "a\x00b", string([]byte{0xff, 0xfe, 0xfd}), "  ", "'", "\r\n", strings.Repeat("\"", 50),
+		// a byte order mark is illegal anywhere in Go source except at offset 0, other format characters are legal: all must be escaped or kept so that the value survives
+		"\ufeffid,name,price", "a\ufeffb", "plain text with a BOM at the end\ufeff", "zero\u200bwidth", "soft\u00adhyphen", "line\u2028sep", "\ufffe", "bidi\u202eoverride"}
 	for _, s := range adversarial {
 		observeString(agg, s)
 		nstr++
